@@ -173,6 +173,10 @@ func (e *Event) Fields(fields interface{}) *Event {
 // Use zerolog.Dict() to create the dictionary.
 func (e *Event) Dict(key string, dict *Event) *Event {
 	if e == nil {
+		// The event is filtered out: hand the unused dict back to the pool.
+		if dict != nil {
+			putEvent(dict)
+		}
 		return e
 	}
 	dict.buf = enc.AppendEndMarker(dict.buf)
@@ -193,6 +197,10 @@ func Dict() *Event {
 // implement the LogArrayMarshaler interface.
 func (e *Event) Array(key string, arr LogArrayMarshaler) *Event {
 	if e == nil {
+		// The event is filtered out: hand the unused array back to the pool.
+		if a, ok := arr.(*Array); ok && a != nil {
+			putArray(a)
+		}
 		return e
 	}
 	e.buf = enc.AppendKey(e.buf, key)
